@@ -122,7 +122,7 @@ def case_wellformed(ctx, spec):
 
 
 # ---- ill-formed classes ---------------------------------------------------------------------------
-ILL = ["trade_nan_price", "trade_zero_price", "nan_price_open_position", "nan_coupon_open_position", "duplicate_columns", "zero_base_mv", "zero_base_fi", "fi_under_mv", "custom_price_no_bidoffer"]
+ILL = ["trade_nan_price", "transact_nan_price", "trade_zero_price", "nan_price_open_position", "nan_coupon_open_position", "duplicate_columns", "zero_base_mv", "zero_base_fi", "fi_under_mv", "custom_price_no_bidoffer"]
 
 
 @st.composite
@@ -212,7 +212,7 @@ def _case_illformed(ctx, spec):
             raise Violation("fixed-income child under a fixed-income parent refused: %s" % e, signature="ill:fi_under_fi-refused")
         return {"nontrivial": True, "labels": labs}
     # tree-level classes use the direct API on a set-up tree
-    if klass in ("trade_nan_price", "nan_price_open_position"):
+    if klass in ("trade_nan_price", "nan_price_open_position", "transact_nan_price"):
         pr[bad][k] = None
     if klass == "trade_zero_price":
         pr[bad][k] = 0.0
@@ -251,6 +251,19 @@ def _case_illformed(ctx, spec):
             root.update(d)
         must_raise(lambda: strat.allocate(amt, child=bad), "allocating %r to %s at price %r" % (amt, bad, pr[bad][k]), unchanged_root=root)
         must_raise(lambda: strat.rebalance(0.3, bad), "rebalancing %s to 0.3 at price %r" % (bad, pr[bad][k]), unchanged_root=root)
+        return {"nontrivial": True, "labels": labs}
+    if klass == "transact_nan_price":
+        # a quantity transacted (not allocated) in a security without a price that day: the error may come from transact itself or from the
+        # refresh that follows, but the date must not close with a NaN booked
+        for d in idx[1 : k + 1]:
+            root.update(d)
+
+        def go():
+            strat.transact(abs(amt) / 100.0 + 1.0, child=bad)
+            root.update(idx[k])
+            root.value
+
+        must_raise(go, "transacting %s at a missing price" % bad)
         return {"nontrivial": True, "labels": labs}
     if klass == "custom_price_no_bidoffer":
         strat.allocate(abs(amt), child=bad)
